@@ -103,7 +103,15 @@ def write_traceback(logger=None, exc_info=None):
     if exc_info is None:
         exc_info = sys.exc_info()
     typ, exception, tb = exc_info
-    traceback = "".join(_traceback_no_io.format_exception(typ, exception, tb))
+    try:
+        traceback = "".join(_traceback_no_io.format_exception(typ, exception, tb))
+    except Exception:
+        # The traceback module cannot render this exception object (e.g. a
+        # SyntaxError whose text or offset attributes have unexpected types);
+        # the stack still can be, and logging must not raise into the caller.
+        traceback = "".join(_traceback_no_io.format_tb(tb)) + (
+            "%s (the exception could not be formatted)\n" % (safeunicode(typ),)
+        )
     _writeTracebackMessage(logger, typ, exception, traceback)
 
 
